@@ -2778,7 +2778,10 @@ impl Compiler {
                     }
                 }
                 _ => {
-                    let max_batch_size = self.frame().available_registers_count() as usize;
+                    // With no registers available, pushing a register for the first element
+                    // reports the error (a chunk size of zero would panic).
+                    let max_batch_size =
+                        (self.frame().available_registers_count() as usize).max(1);
                     for elements_batch in elements.chunks(max_batch_size) {
                         let stack_count = self.stack_count();
                         let start_register = self.frame().next_temporary_register();
